@@ -290,11 +290,17 @@ let run_case (x : sx) : Stdlib.String.t =
                         (match List.map sub subs with u :: us -> SUnion (u, us) | [] -> failwith "empty union")
                     | A q :: k -> SBr (n_of_int (int_of_string q), cp k)
                     | _ -> failwith "bad step" in
-                  let ks = List.map (function
+                  let rstep_of = function
                     | L (A "4" :: inner) -> RRec (plain inner)
                     | L l -> RPlain (plain l)
-                    | _ -> failwith "bad step") steps in
+                    | _ -> failwith "bad step" in
+                  let is_filter = function L (A "7" :: _) -> true | _ -> false in
+                  let fs = List.map (function
+                    | L (A "7" :: inner) -> FE (List.map rstep_of inner)
+                    | x -> FS (rstep_of x)) steps in
+                  let ks = if List.exists is_filter steps then [] else List.map rstep_of steps in
                   let text = match getf "nodollar", getf "pad", ks with
+                    | _ when List.exists is_filter steps -> fchain_path fs
                     | _ when getf "keyf" <> [] ->
                         chain_fun_path ks (List.map (function L l -> cp l | _ -> failwith "bad function name") (getf "keyf"))
                     | [A "1"], _, RPlain s0 :: rest -> chain_path0 s0 rest
